@@ -69,6 +69,15 @@ type vfLeaseStore struct {
 	pauseSeen  int
 	pausedCh   chan struct{}
 	releaseCh  chan struct{}
+
+	lastEvalKeys  []string
+	lastEvalArgv  []string
+	lastEvalReply vfReply
+
+	// hold the REPLY of the next EVAL (already executed) until released
+	holdEval     bool
+	evalHeldCh   chan struct{}
+	evalReleaseC chan struct{}
 }
 
 func (st *vfLeaseStore) armPause(conn, after int) {
@@ -161,7 +170,7 @@ func (st *vfLeaseStore) exec(args []string) vfReply {
 	case "PING":
 		return vfReply{kind: '+', s: "PONG"}
 	case "INFO": // enough for redis.GetRedisRoleOnline on a standalone input
-		return vfReply{kind: '$', s: "# Replication\r\nrole:master\r\nconnected_slaves:0\r\n"}
+		return vfReply{kind: '$', s: "# Server\r\nredis_version:7.0.0\r\n# Replication\r\nrole:master\r\nconnected_slaves:0\r\n"}
 	case "GET":
 		if len(args) != 2 {
 			return vfReply{kind: '-', s: "ERR wrong number of arguments for 'get' command"}
@@ -220,7 +229,11 @@ func (st *vfLeaseStore) exec(args []string) vfReply {
 		}
 		st.lastScript = args[1]
 		st.evals++
-		return st.evalScript(args[1], args[3:3+nk], args[3+nk:])
+		rp := st.evalScript(args[1], args[3:3+nk], args[3+nk:])
+		st.lastEvalKeys = append([]string{}, args[3:3+nk]...)
+		st.lastEvalArgv = append([]string{}, args[3+nk:]...)
+		st.lastEvalReply = rp
+		return rp
 	}
 	return vfReply{kind: '-', s: "ERR unknown command '" + args[0] + "'"}
 }
@@ -343,7 +356,16 @@ func (st *vfLeaseStore) serve(c net.Conn, id int) {
 		default:
 			rp = st.exec(args)
 		}
+		var heldCh, relCh chan struct{}
+		if st.holdEval && len(args) > 0 && strings.ToUpper(args[0]) == "EVAL" && mode == vfFailNone {
+			st.holdEval = false
+			heldCh, relCh = st.evalHeldCh, st.evalReleaseC
+		}
 		st.mu.Unlock()
+		if heldCh != nil {
+			heldCh <- struct{}{}
+			<-relCh
+		}
 		switch mode {
 		case vfFailErrAfter:
 			rp = vfReply{kind: '-', s: "ERR injected failure (executed)"}
@@ -890,3 +912,30 @@ func (st *vfLeaseStore) VerifHoldNext() {
 
 func (st *vfLeaseStore) VerifHeld() <-chan struct{} { return st.pausedCh }
 func (st *vfLeaseStore) VerifRelease()              { close(st.releaseCh) }
+
+// VerifHoldEvalReply: the next EVAL (from any connection) is executed, but its
+// reply is held until the returned release function is called; the first
+// channel is signalled once the script has run.
+func (st *vfLeaseStore) VerifHoldEvalReply() (<-chan struct{}, func()) {
+	st.mu.Lock()
+	defer st.mu.Unlock()
+	st.holdEval = true
+	st.evalHeldCh = make(chan struct{}, 1)
+	st.evalReleaseC = make(chan struct{})
+	rel := st.evalReleaseC
+	return st.evalHeldCh, func() { close(rel) }
+}
+
+// VerifLastEval: KEYS, ARGV and the integer reply (ok=false if the last EVAL
+// did not answer an integer) of the most recent EVAL.
+func (st *vfLeaseStore) VerifLastEval() (keys, argv []string, reply int64, ok bool) {
+	st.mu.Lock()
+	defer st.mu.Unlock()
+	return st.lastEvalKeys, st.lastEvalArgv, st.lastEvalReply.n, st.lastEvalReply.kind == ':'
+}
+
+func (st *vfLeaseStore) VerifEvals() int {
+	st.mu.Lock()
+	defer st.mu.Unlock()
+	return st.evals
+}
